@@ -92,6 +92,9 @@ def run(ctx):
         return
     n = 60 if ctx.tier == 'quick' else 400
     specs = util.corpus(ctx.prop) + gen.gen_many(ctx.seed, n, CFG, 'c05_')
+    # steps of unequal length (daily steps across a clock change: 23 h / 25 h days) with a maximum holding duration
+    specs += gen.gen_many(ctx.seed, n // 4, dict(CFG, freqs=['d'], tzs=['CET'], p_dst=1.0, T=(4, 8), p_max_store=0.8, p_coarse=0.0, p_blocks=0.0,
+                                                 p_unaligned_end=0.0, kinds={'Storage': 1}, n_assets=(1, 2)), 'c05dst_')
     specs = ctx.specs(specs)
     res = C.run_impl('portfolio', specs)
     parts = C.run_impl('assets', specs)
